@@ -207,9 +207,13 @@ def judge_case(pr, c, hashes, st):
         out.append(("flow-output-unreadable", got[1]))
         return out
     num = exp["pre_release"][1] if (exp["num_source"] is not None) else None
-    if exp["num_source"] == "unfit":
-        st["report_only_unfit_segment"] = st.get("report_only_unfit_segment", 0) + 1
-        return out
+    unfit = exp["num_source"] == "unfit"
+    if unfit:
+        # the first all-digit segment does not fit the number type: the statement leaves the *number* open (zerv falls back to the hash);
+        # rule, label, patch, post and dev are still the law's
+        st["number_left_open_unfit_segment"] = st.get("number_left_open_unfit_segment", 0) + 1
+        if got[0] == "err":
+            return out
     if got[0] == "err":
         msg = got[1]
         if c.get("big_distance") is not None and _RE_PARSE_ANY.search(msg) and int(_RE_PARSE_ANY.search(msg).group(1)) == c["big_distance"] > 2 ** 32 - 1:
@@ -243,6 +247,8 @@ def judge_case(pr, c, hashes, st):
     else:
         if gp is None or gp[0] != ep[0]:
             diffs.append("pre-release label %r, law says %r" % (gp, ep[0]))
+        elif unfit:
+            pass
         elif num[0] == "num":
             if gp[1] != num[1]:
                 diffs.append("pre-release number %r, law says %r" % (gp[1], num[1]))
